@@ -14,7 +14,7 @@ from hypothesis import strategies as st
 CELL_POOL = ['', 'a', 'b', 'ab', 'a b', 'B', '10', '9', '100', 'x,y', ' a', 'a!', 'k', 'zz', 'A;B', 'q"r', "it's", 'é', 'a%', '_']
 JS_SAFE_CELL_POOL = ['', 'a', 'b', 'ab', 'a b', 'B', '10', '9', '100', 'x,y', ' a', 'a!', 'k', 'zz', 'A;B', 'q"r', "it's", 'a%', '_']
 NAME_POOL = ['k', 'v', 'name', 'x1', '_id', 'Col', 'zz', 'w', 'val', 'key_2', 'Total', 'n', 'a_1', 'k2', 'v10', 'name2']
-LIT_POOL = ['', 'a', 'b', 'x', 'a b', ',', ';', 'zz', '10', '-', 'A', '%', 'a%', '_', '(', ')', '[x]', '#', 'é']
+LIT_POOL = ['', 'a', 'b', 'x', 'a b', ',', ';', 'zz', '10', '-', 'A', '%', 'a%', '_', '(', ')', '[x]', '#', 'é', '$$', '$&', 'p$$q', '$1', '{}', '%s']
 ALIAS_POOL = ['x', 'y', 'res', 'Total', 'c_1', 'zed', 'alias9']
 
 AGG_FUNCS = ['COUNT', 'MIN', 'MAX', 'SUM', 'AVG', 'VARIANCE', 'MEDIAN', 'ARRAY_AGG', 'ANY_VALUE']
